@@ -116,6 +116,13 @@ func ConcatItems[T any](items []T) (T, error) {
 		return t, nil
 	}
 
+	// a concat func registered for an interface type may answer with the nil value of
+	// that type, which cannot be type-asserted: it is the zero value of T
+	if cv.Kind() == reflect.Interface && cv.IsNil() {
+		var t T
+		return t, nil
+	}
+
 	return cv.Interface().(T), nil
 }
 
